@@ -135,6 +135,44 @@ def check(text):
     return (rp, None)
 
 
+def threaded(text):
+    """repr / pickle / deepcopy of one AST from several threads at once must give what one thread gives"""
+    import sys, threading
+    r = py_parse_obj(text, "f.c")
+    if r[0] != "OK":
+        return None
+    ast = r[1]
+    want = (repr(ast), dump(ast, True))
+    out = {}
+
+    def work(i):
+        try:
+            a = repr(ast)
+            b = dump(pickle.loads(pickle.dumps(ast, protocol=2)), True)
+            c = dump(copy.deepcopy(ast), True)
+            out[i] = (a == want[0], b == want[1], c == want[1])
+        except RecursionError:
+            out[i] = (True, True, True)
+        except Exception as e:  # noqa
+            out[i] = ("%s: %s" % (type(e).__name__, e),)
+
+    old = sys.getswitchinterval()
+    sys.setswitchinterval(1e-6)
+    try:
+        for _ in range(3):
+            ths = [threading.Thread(target=work, args=(i,)) for i in range(4)]
+            for t in ths:
+                t.start()
+            for t in ths:
+                t.join()
+            for i, v in out.items():
+                if v != (True, True, True):
+                    return "thread %d: repr / pickle / deepcopy of a shared AST from 4 threads at once differs from the single-threaded result: %r" % (i, v)
+    finally:
+        sys.setswitchinterval(old)
+    return None
+
+
 def _dump_of(t):
     r = py_parse_obj(t, "f.c")
     return dump(r[1], False) if r[0] == "OK" else "~"
@@ -142,7 +180,7 @@ def _dump_of(t):
 
 def run(ctx):
     texts = [t for t in progs.pool(ctx, scale=0.3) if len(t) < 5000] + EXTRA
-    ctx.rule(progs.RULE + "; plus programs with quotes, backslashes and non-ASCII characters in literals, empty blocks and absent children, and coordinates beyond 16 / 32 bits (a 70 000-character line, line numbers up to 2^40, a 600-character file name): eval(repr(ast)) in the namespace of c_ast (structural equality, generated text), pickle protocols 2..HIGHEST and copy.deepcopy (equality incl. coordinates, generated text, no mutable object - node, list or coordinate - shared with the original, mutation independence); repr text compared with the Lean model of __repr__ for ASCII programs")
+    ctx.rule(progs.RULE + "; plus programs with quotes, backslashes and non-ASCII characters in literals, empty blocks and absent children, and coordinates beyond 16 / 32 bits (a 70 000-character line, line numbers up to 2^40, a 600-character file name): eval(repr(ast)) in the namespace of c_ast (structural equality, generated text), pickle protocols 2..HIGHEST and copy.deepcopy (equality incl. coordinates, generated text, no mutable object - node, list or coordinate - shared with the original, mutation independence); repr text compared with the Lean model of __repr__ for ASCII programs; repr / pickle / deepcopy of one AST from 4 threads at once (switch interval 1e-6 s) must equal the single-threaded results")
     res = pmap(check, texts)
     ascii_idx = [i for i, t in enumerate(texts) if res[i] is not None and t.isascii()]
     dumps = pmap(_dump_of, [texts[i] for i in ascii_idx])
@@ -158,11 +196,21 @@ def run(ctx):
         for k, i in enumerate(ascii_idx):
             if res[i][1] is None and md[k] != "OK\t" + esc(res[i][0]):
                 ctx.violation("repr() of the real AST differs from the Lean model of __repr__ on %r" % texts[i][:120], {"kind": "text", "text": texts[i]})
-    ctx.count(len(texts), nontrivial_keys=keys)
+    # the same observations from several threads at once (the functions must not keep process-wide state)
+    big = sorted([t for t in texts if len(t) > 300], key=len)[-12:] + ["int v%d = %d + a * (b - %d);\n" % (i, i, i) * 1 for i in range(3)] + ["".join("int g%d(int a) { return a + %d; }\n" % (i, i) for i in range(150))]
+    for t in big:
+        pr = threaded(t)
+        if pr is not None:
+            ctx.violation("%s on %r" % (pr, t[:100]), {"kind": "threaded", "text": t})
+    ctx.count(len(texts) + len(big), nontrivial_keys=keys)
     ctx.sample({"kind": "repr", "text": EXTRA[0], "repr": (check(EXTRA[0]) or ("",))[0][:300]})
 
 
 def replay(ctx, payload):
+    if payload["input"].get("kind") == "threaded":
+        pr = threaded(payload["input"]["text"])
+        print(pr)
+        return pr is None
     r = check(payload["input"]["text"])
     print(r[1] if r else "not parsed")
     return r is None or r[1] is None
